@@ -30,6 +30,8 @@ def run(pid, tier, seed, steer):
     return out
 
 def main():
+    # always sweep a binary built from the current /repo tree
+    subprocess.run(['cargo','build','--offline','-q'],cwd=os.path.join(os.path.dirname(os.path.abspath(__file__)),'..','harness'),env=dict(os.environ,RUSTFLAGS='--cfg resvg_verif'),stderr=subprocess.DEVNULL)
     ap = argparse.ArgumentParser()
     ap.add_argument("prop")
     ap.add_argument("--tier", default="quick")
